@@ -53,6 +53,7 @@ T=[
  ("fx-intersection-next-to-record","C05","5c6bed9","replays/C05/fixed/intersection-next-to-record.json","a union of an intersection with a named member and a record whose value type is that named type is not assignable to itself: type Alpha = {k: null}; ({\"a-b\": string; a: \"a\"} & Alpha) | {[k: string]: Alpha} extends itself is answered no (the inline-merged spelling is answered yes); generalises the uninhabited-intersection entry"),
  ("fx-renamed-recursive-record-intersection","C05","5c6bed9","replays/C05/fixed/renamed-recursive-record-intersection.json","two renamings of one recursive type (type Alpha = {x: {[k: string]: number} & {a?: Alpha[]}}; Beta likewise) were not assignable to each other although each is assignable to itself (the record's index signature was ignored for the key a when the intersection was merged)"),
  ("fx-record-covered-by-union-of-records","C05","433b075","replays/C05/fixed/record-covered-by-union-of-records.json","{[k: string]: null | string} | ... was judged assignable to {[k: string]: null} | {[k: string]: string | {...}} (and {[k: string]: A | B} the same type as {[k: string]: A} | {[k: string]: B}) although {c: \"a\", a: null} is in the first and not in the second: the index signature was treated as a single key when several negated records had to be escaped"),
+ ("fx-export-list-dual-meaning","C09","c4254aa","replays/C09/fixed/export-list-dual-meaning.json","export { CUnitQ } of a name that is both a constant and a type (const CUnitQ = \"ms\" as const; type CUnitQ = ...) exported the type only: import { CUnitQ } from \"./entry\" used as a value in another module reported Cannot resolve value 'entry.ts::CUnitQ' (the single-file program compiles)"),
  ("fx-describe-empty-union","C15","1a46d80","replays/C15/fixed/empty-union-described-as-parens.json","describe() printed never | never as \"()\" (not parseable)"),
 ]
 p='/verif/known_findings.json'
